@@ -27,7 +27,7 @@ for p in props:
                 "design_ref": "DESIGN.md section 6 (%s)" % pid,
             },
             "level_note": pr.get("level_note", "Trusted: the symbolic interpreter (validated on every run against native executions of sampled paths), z3, the stubs listed in evidence.assumptions (hash injectivity, fmt/reflect intrinsics, harness marshaler and caches). Bounded: nothing is claimed outside the bounds in evidence.coverage.bounds_statement."),
-            "technique": pr.get("technique", "symbolic execution of go/ssa + SMT (z3), bounded, native replay"),
+            "technique": pr.get("technique", "symbolic execution of go/ssa + SMT (z3 4.8.12; sampled paths re-decided by z3 5.1.0 and cvc5), bounded, native replay"),
         }
         checks.append(c)
     else:
@@ -38,7 +38,7 @@ m = {
     "hooks": {"guard": "verif", "enable": "none needed: harnesses are injected by go/packages overlays (symbolic run) and go test -overlay (native replay); /repo carries no hook code",
               "baseline_off_cmd": "cd /repo && GOFLAGS=-mod=mod go test -vet=off -count=1 -timeout 25m ./...", "source_commits": [], "add_only": True},
     "engines": [{"name": "symex", "path": "engine/", "serves_properties": [c["property_id"] for c in checks],
-                 "kind_free_text": "own symbolic executor for go/ssa (x/tools v0.29.0) with SMT back end (z3 4.8.12 pipe, z3 5.1.0 fallback), DFS by re-execution over 16 workers, learnt-fact pruning, happens-before scheduler, native replay through go test -overlay"}],
+                 "kind_free_text": "own symbolic executor for go/ssa (x/tools v0.29.0) with SMT back end (z3 4.8.12 pipe, z3 5.1.0 fallback, cross-solver replay of sampled path transcripts through z3 5.1.0 and cvc5 1.0), DFS by re-execution over 16 workers, learnt-fact pruning, happens-before scheduler, native replay through go test -overlay"}],
     "checks": checks,
     "not_applicable": na,
     "notes": "All checks: ./check <id> --tier quick|thorough. Exit 0 = held within bounds (KNOWN-FINDING lines for defects listed open in known_findings.json); exit 1 + VIOLATION line = reproduced counterexample; exit 3 = the machinery could not complete the bound (never reported as success).",
